@@ -26,8 +26,8 @@ BUDGET = {"quick": 45, "thorough": 420}
 RULE = "index k -> (Timeout spec, placement, scheme, connect duration, response delay, second request with its own delays and optional override). Non-trivial = some phase took virtual time; distinct = distinct scenario tuple."
 ASSUMPTIONS = ["sends take no virtual time", "the default socket timeout (socket.getdefaulttimeout()) is None in the harness process"]
 REQUIRED_PROBES = {
-    "quick": ["connect_timeout_fired", "read_timeout_fired", "zero_budget_no_wait", "invalid_rejected", "request_override", "reused_connection", "https", "total_minus_elapsed", "second_request_fresh_clock", "send_on_reused_under_own_timeout"],
-    "thorough": ["connect_timeout_fired", "read_timeout_fired", "zero_budget_no_wait", "invalid_rejected", "request_override", "reused_connection", "https", "total_minus_elapsed", "second_request_fresh_clock", "send_on_reused_under_own_timeout"],
+    "quick": ["connect_timeout_fired", "read_timeout_fired", "zero_budget_no_wait", "invalid_rejected", "request_override", "reused_connection", "https", "total_minus_elapsed", "second_request_fresh_clock", "send_on_reused_under_own_timeout", "tunnel"],
+    "thorough": ["connect_timeout_fired", "read_timeout_fired", "zero_budget_no_wait", "invalid_rejected", "request_override", "reused_connection", "https", "total_minus_elapsed", "second_request_fresh_clock", "send_on_reused_under_own_timeout", "tunnel"],
 }
 
 VALS = ["unset", None, 0.5, 2, 10]
@@ -54,7 +54,8 @@ def gen(rng):
         return {"property": ID, "invalid": {fld: rng.choice(INVALID)}, "placement": rng.choice(["pool", "request"])}
     sc = {
         "property": ID,
-        "scheme": rng.choice(["http", "http", "https"]),
+        # "tunnel": https through a CONNECT proxy -- the tunnel is set up before the request proper, under the same connect timeout
+        "scheme": rng.choice(["http", "http", "http", "https", "https", "tunnel"]),
         "pool_timeout": gen_timeout(rng) if rng.random() < 0.7 else "unset",
         "requests": [],
     }
@@ -124,18 +125,27 @@ def run(sc: dict) -> Result:
         res.digest = "invalid"
         res.nontrivial = True
         return res
-    https = sc["scheme"] == "https"
+    https = sc["scheme"] in ("https", "tunnel")
+    tunnel = sc["scheme"] == "tunnel"
     dials = []
     exchanges = []
     w = W.World({})
-    w.default_listener = H.tls_origin_factory() if https else H.origin_factory()
+    if tunnel:
+        w.default_listener = H.origin_factory("proxy", "proxy")
+        w.tunnel_factory = lambda w_, chan, target: H.tls_origin_factory()(w_, chan)
+    else:
+        w.default_listener = H.tls_origin_factory() if https else H.origin_factory()
     with H.RunEnv(), H.quiet_warnings(), w:
         kw = {}
         if sc["pool_timeout"] != "unset":
             kw["timeout"] = mk(sc["pool_timeout"])
         pool_to_obj = kw.get("timeout")
         pool_fields_before = _fields(pool_to_obj)
-        if https:
+        if tunnel:
+            pm_ = urllib3.ProxyManager("http://proxy.test:3128", ca_certs=T.CA_GOOD, retries=False, **kw)
+            pool = pm_.connection_from_url("https://h.test/")
+            res.probes["tunnel"] += 1
+        elif https:
             pool = urllib3.HTTPSConnectionPool("h.test", 443, ca_certs=T.CA_GOOD, retries=False, **kw)
         else:
             pool = urllib3.HTTPConnectionPool("h.test", 80, retries=False, **kw)
@@ -188,7 +198,7 @@ def run(sc: dict) -> Result:
             for e in evs:
                 if e[1] == "settimeout":
                     cur_to[e[2]] = e[3]
-                if e[1] == "request":
+                if e[1] == "request" and not (isinstance(e[3], tuple) and len(e[3]) > 2 and e[3][2] == "CONNECT"):
                     sent = True
                 if sent and e[1] in ("recv", "recv_timeout", "recv_block", "recv_eof"):
                     if obs_read is None:
@@ -220,7 +230,8 @@ def run(sc: dict) -> Result:
                     res.bad("wrong_connect_timeout", f"{tag}: socket had {obs_connect[0]} during connect, reference min(connect,total)={ct}")
                     break
             if fresh and ct is not None and d > ct:
-                if not (outcome[0] == "exc" and isinstance(outcome[1], ConnectTimeoutError)):
+                # (through a proxy the connect time-out is reported as ProxyError carrying the ConnectTimeoutError)
+                if not (outcome[0] == "exc" and (isinstance(outcome[1], ConnectTimeoutError) or (tunnel and isinstance(H.root_reason(outcome[1]), ConnectTimeoutError)))):
                     res.bad("connect_timeout_not_raised", f"{tag}: outcome {outcome!r:.120}")
                 elif abs((t1 - t0) - ct) > 1e-6:
                     res.bad("connect_timeout_wrong_instant", f"{tag}: gave up after {t1 - t0}, configured {ct}")
